@@ -40,13 +40,18 @@ from .values import (
 # ``hints``; their truth is sampled against CPython by tools/crosscheck.py on every run (tested, not proved)
 LEMMA_SCHEMAS = {"strip_padded", "int_padded", "strip_core", "strip_blank", "strip_unique", "index_at", "cut_at", "head_of",
                  "excludes", "int_of_signed", "int_of_digits", "substr_at", "char_at", "chars_at", "nat_shift", "leading_zeros",
-                 "digits_only", "digit_chars", "split_first", "last_of", "strip_noop", "find_in", "rfind_in", "char_of_slice"}
+                 "digits_only", "digit_chars", "split_first", "last_of", "strip_noop", "find_in", "rfind_in", "char_of_slice", "digit_at", "char_in_token", "lstrip_noop"}
 
 
 class Loop:
     """Invariant / variant of the n-th loop (source order) of a function."""
 
-    def __init__(self, invariants=(), decreases=None, vars=None, header=None, modifies=(), unroll=False):
+    def __init__(self, invariants=(), decreases=None, vars=None, header=None, modifies=(), unroll=False, hints=()):
+        self.hints = list(hints)  # lemma-schema instances assumed at the loop head (after the havoc)
+        for h in self.hints:
+            t = ast.parse(h, mode="eval").body
+            if not (isinstance(t, ast.Call) and isinstance(t.func, ast.Name) and t.func.id in LEMMA_SCHEMAS):
+                raise ValueError(f"loop hint {h!r} is not an instance of a lemma schema")
         # unroll: execute the loop iteration by iteration, branching on symbolic conditions; accepted only
         # when every path leaves the loop through a *concrete* guard within 64 iterations (complete, not bounded)
         self.unroll = unroll
@@ -577,6 +582,37 @@ def _sb_char_of_slice(ex, st, args, kwargs):
                                     z3.SubString(z3.SubString(S, lo, n), j, 1) == z3.SubString(S, lo + j, 1)))
 
 
+def _sb_digit_at(ex, st, args, kwargs):
+    """digit_at(d, i): d is a non-empty string of ASCII digits and 0 <= i < len(d)  =>  d[i] is one ASCII digit
+    (and str.isdigit() of it is true)."""
+    d, i = args
+    D = bm.sstr(d)
+    I = lift(i, "int")
+    c = z3.SubString(D, I, 1)
+    yield st, SV("bool", z3.Implies(z3.And(z3.InRe(D, bm.RE_DIGITS), I >= 0, I < z3.Length(D)),
+                                    z3.And(z3.InRe(c, bm.RE_DIGIT), z3.Length(c) == 1, z3.Not(z3.InRe(c, bm.RE_WS)),
+                                           z3.StrToCode(c) >= 48, z3.StrToCode(c) <= 57)))
+
+
+def _sb_char_in_token(ex, st, args, kwargs):
+    """char_in_token(s, a, tok, b, i): s == a + tok + b and 0 <= i < len(tok)  =>  s[len(a) + i] is tok[i]."""
+    s, a, tok, b, i = args
+    S, A, T = bm.sstr(s), bm.sstr(a), bm.sstr(tok)
+    I = lift(i, "int")
+    whole = bm.sstr(bm.str_concat([a, tok, b]))
+    yield st, SV("bool", z3.Implies(z3.And(S == whole, I >= 0, I < z3.Length(T)),
+                                    z3.SubString(S, z3.Length(A) + I, 1) == z3.SubString(T, I, 1)))
+
+
+def _sb_lstrip_noop(ex, st, args, kwargs):
+    """lstrip_noop(d, ch): d does not start with the character ch  =>  d.lstrip(ch) == d."""
+    d, ch = args
+    if is_sym(ch) or len(ch) != 1:
+        raise Unsupported("lstrip_noop needs a literal character")
+    D = bm.sstr(d)
+    yield st, SV("bool", z3.Implies(z3.SubString(D, 0, 1) != z3.StringVal(ch), bm.lstrip_term(D, ch) == D))
+
+
 def _sb_digits_only(ex, st, args, kwargs):
     """digits_only(d, ch): a numeral of ASCII digits does not contain the (non-digit) character ch."""
     d, ch = args
@@ -740,7 +776,7 @@ def _sb_py_int_strip(ex, st, args, kwargs):
     yield st, (SV("str", bm.strip_term(bm.sstr(s), "int")) if is_sym(s) else s.strip(" \t\n\x0b\x0c\r"))
 
 
-SPEC_BUILTINS = {"char_of_slice": _sb_char_of_slice, "find_in": _sb_find_in, "rfind_in": _sb_rfind_in, "split_first": _sb_split_first, "last_of": _sb_last_of, "strip_noop": _sb_strip_noop, "chars_at": _sb_chars_at, "digit_chars": _sb_digit_chars, "leading_zeros": _sb_leading_zeros, "digits_only": _sb_digits_only, "head_of": _sb_head_of, "py_int": _sb_py_int, "py_int_ok": _sb_py_int_ok, "nat_shift": _sb_nat_shift, "char_at": _sb_char_at, "int_of_digits": _sb_int_of_digits, "substr_at": _sb_substr_at, "strip_core": _sb_strip_core, "cut_at": _sb_cut_at, "excludes": _sb_excludes, "int_padded": _sb_int_padded, "py_int_strip": _sb_py_int_strip, "py_repr": _sb_py_repr, "loops_exhausted": _sb_loops_exhausted, "call_kwarg": _sb_call_kwarg, "some": _sb_some, "index_at": _sb_index_at, "strip_blank": _sb_strip_blank, "pos_of": _sb_pos_of, "call_arg": _sb_call_arg, "unmodified": _sb_unmodified, "uf": _sb_uf, "called": _sb_called, "py_isalpha": _sb_py_isalpha, "py_isdigit": _sb_py_isdigit, "int_of_signed": _sb_int_of_signed, "strip_padded": _sb_strip_padded, "strip_unique": _sb_strip_unique, "py_strip": _sb_py_strip, "pad": _sb_pad, "matches": _sb_matches, "nat": _sb_nat, "key_at": _sb_key_at, "val_at": _sb_val_at,
+SPEC_BUILTINS = {"digit_at": _sb_digit_at, "char_in_token": _sb_char_in_token, "lstrip_noop": _sb_lstrip_noop, "char_of_slice": _sb_char_of_slice, "find_in": _sb_find_in, "rfind_in": _sb_rfind_in, "split_first": _sb_split_first, "last_of": _sb_last_of, "strip_noop": _sb_strip_noop, "chars_at": _sb_chars_at, "digit_chars": _sb_digit_chars, "leading_zeros": _sb_leading_zeros, "digits_only": _sb_digits_only, "head_of": _sb_head_of, "py_int": _sb_py_int, "py_int_ok": _sb_py_int_ok, "nat_shift": _sb_nat_shift, "char_at": _sb_char_at, "int_of_digits": _sb_int_of_digits, "substr_at": _sb_substr_at, "strip_core": _sb_strip_core, "cut_at": _sb_cut_at, "excludes": _sb_excludes, "int_padded": _sb_int_padded, "py_int_strip": _sb_py_int_strip, "py_repr": _sb_py_repr, "loops_exhausted": _sb_loops_exhausted, "call_kwarg": _sb_call_kwarg, "some": _sb_some, "index_at": _sb_index_at, "strip_blank": _sb_strip_blank, "pos_of": _sb_pos_of, "call_arg": _sb_call_arg, "unmodified": _sb_unmodified, "uf": _sb_uf, "called": _sb_called, "py_isalpha": _sb_py_isalpha, "py_isdigit": _sb_py_isdigit, "int_of_signed": _sb_int_of_signed, "strip_padded": _sb_strip_padded, "strip_unique": _sb_strip_unique, "py_strip": _sb_py_strip, "pad": _sb_pad, "matches": _sb_matches, "nat": _sb_nat, "key_at": _sb_key_at, "val_at": _sb_val_at,
                  "same_dict": _sb_same_dict}
 
 
@@ -1090,6 +1126,8 @@ def _assume_invs(ex, st, spec: Loop, extra_env=None):
     env.update(extra_env or {})
     for inv in spec.invariants:
         st.assume(eval_spec(ex, st, inv, env))
+    for h in spec.hints:  # lemma-schema instances at the loop head (e.g. "the character under the cursor is a digit")
+        st.assume(eval_spec(ex, st, h, env, what="loop hint"))
 
 
 def _heap_snapshot(st):
@@ -1414,17 +1452,17 @@ def apply_contract(ex: Exec, st: State, f: FuncRef, node, c: Contract, args, kwa
     env2 = dict(env)
     env2["result"] = result
     view = c.ensures if c.call_ensures is None else [(f"call{i}", e) for i, e in enumerate(c.call_ensures)]
-    pc_before = list(st.pc)
     for name, e in view:
-        st.assume(eval_spec(ex, st, e, env2, what=f"{c.key}.{name}"))
+        t = eval_spec(ex, st, e, env2, what=f"{c.key}.{name}")
+        tt = t.t if isinstance(t, SV) else t
+        if str(e).strip() != "False" and (tt is False or (not isinstance(tt, bool) and z3.is_false(z3.simplify(tt)))):
+            # a post-condition that is literally false at this call site would silently drop the caller's path
+            # (a contract that never returns says so with the clause "False")
+            raise Unsupported(f"post-condition {name!r} of {c.key} evaluates to False at a call site in {caller} (vacuous continuation)")
+        st.assume(t)
     st.old = saved_old
     if ex.feasible(st.pc):
         yield st, result
-    elif not any(str(e).strip() == "False" for _, e in view) and ex.feasible(pc_before):
-        # the callee's post-condition contradicts what the caller knows: the rest of the caller would be verified
-        # vacuously.  A contract that states it never returns says so with the clause "False".
-        raise Unsupported(f"the post-condition of {c.key} is inconsistent with the caller's state at this call "
-                          f"(vacuous continuation in {caller})")
 
 
 def _havoc_target(ex, st, env, m):
